@@ -186,6 +186,12 @@ def r2_siblings(ctx):
     nk = [key(c, True) for c in nq]
     full_wo_castle = [k for k in fk if k[0][0] != "castle_moves"]
     has_castle = len(fk) - len(full_wo_castle)
+    KNOWN_GENS = {"pawn_moves", "pawn_attacks", "sliding_moves", "single_moves", "castle_moves"}
+    if not ({k[0][0] for k in fk} & KNOWN_GENS) or not ({k[0][0] for k in nk} & KNOWN_GENS):
+        # one of the two generators does not call the per-piece generators itself (a loop over a table of piece
+        # kinds, a shared body): the call-by-call comparison does not apply
+        ctx.lost(rid, "the per-piece generator calls of the full and the capture generator (found %d / %d)" % (len(fk), len(nk)))
+        return
     ctx.ob(rid, "full|castle_moves-once", has_castle == 1, "" if has_castle == 1 else "the full generator calls castle_moves %d times" % has_castle, ctx.where(ff))
     ok = not any(k[0][0] == "castle_moves" for k in nk)
     ctx.ob(rid, "captures|no-castling", ok, "" if ok else "the capture generator generates castling moves", ctx.where(fn))
@@ -596,7 +602,10 @@ def r6_legal_filter(ctx):
                             if dt[0] == "call" and dt[1] == BB + "is_move_legal" and sb == sw["otherwise"]:
                                 dep = True
                     ok = ok and dep
-    ctx.ob(rid, "is_any_move_legal|probes-each-move", ok, "" if ok else "is_any_move_legal does not return true exactly under a successful is_move_legal probe inside its loop", ctx.where(h))
+    if len(probes) != 1 or not hcfg.in_loop(probes[0]):
+        ctx.lost(rid, "is_any_move_legal: one is_move_legal probe inside a loop (found %d)" % len(probes))
+    else:
+      ctx.ob(rid, "is_any_move_legal|probes-each-move", ok, "" if ok else "is_any_move_legal does not return true exactly under a successful is_move_legal probe inside its loop", ctx.where(h))
 
 
 def run(ctx):
